@@ -1157,4 +1157,82 @@ theorem inv_init (env : Env) (vr : Variant) (loose0 : Ref → Option Val) (ops :
   · intro a op _
     simp [IState.init, Phase.outcome]
 
+/-! ## Part 2 — the commit protocol over an atomic compare-and-swap register -/
+
+open Proto
+
+/-- the successful swaps form a first-parent chain from the current head down to the initial head -/
+def ChainOK (init : Option Sha) : List (Sha × Option Sha) → Option Sha → Prop
+  | [], reg => reg = init
+  | (c, p) :: rest, reg => reg = some c ∧ ChainOK init rest p
+
+instance (init : Option Sha) : (l : List (Sha × Option Sha)) → (reg : Option Sha) → Decidable (ChainOK init l reg)
+  | [], reg => by unfold ChainOK; infer_instance
+  | (c, p) :: rest, reg => by
+    unfold ChainOK
+    have := instDecidableChainOK init rest p
+    infer_instance
+
+/-- invariant of the single-read protocol -/
+def PInv (init : Option Sha) (s : PState) : Prop :=
+  ChainOK init s.log s.reg ∧
+  ∀ (a : Nat) (st : PActor), s.actors[a]? = some st →
+    (∀ p, st.pc ≠ .read1 p) ∧ (∀ p o, st.pc = .ready p o → p = o) ∧
+    (∀ p, st.pc = .done true p → (st.cid, p) ∈ s.log)
+
+theorem pinv_step (init : Option Sha) (s s' : PState) (a : Nat) (e : PEvent) (h : PInv init s)
+    (hs : pstep 1 s a = some (s', e)) : PInv init s' := by
+  obtain ⟨hchain, hact⟩ := h
+  unfold pstep at hs
+  cases hst : s.actors[a]? with
+  | none => simp [hst] at hs
+  | some st =>
+    have halt : a < s.actors.length := (List.getElem?_eq_some_iff.mp hst).1
+    obtain ⟨h1, h2, h3⟩ := hact a st hst
+    simp only [hst] at hs
+    cases hpc : st.pc with
+    | start =>
+      simp only [hpc, Nat.le_refl, if_true, Option.some.injEq, Prod.mk.injEq] at hs
+      obtain ⟨rfl, _⟩ := hs
+      refine ⟨hchain, fun b stb hb => ?_⟩
+      by_cases hba : a = b
+      · subst hba
+        simp only [List.getElem?_set_self halt, Option.some.injEq] at hb
+        subst hb
+        exact ⟨fun p => by simp, fun p o hp => by simp at hp; rw [← hp.1, ← hp.2], fun p hp => by simp at hp⟩
+      · simp only [List.getElem?_set_ne hba] at hb
+        exact hact b stb hb
+    | read1 p => exact absurd hpc (h1 p)
+    | done ok p => simp [hpc] at hs
+    | ready parent old =>
+      have hpo := h2 parent old hpc
+      subst hpo
+      simp only [hpc] at hs
+      by_cases hreg : s.reg = parent
+      · simp only [hreg, if_true, Option.some.injEq, Prod.mk.injEq] at hs
+        obtain ⟨rfl, _⟩ := hs
+        refine ⟨⟨rfl, by rw [← hreg]; exact hchain⟩, fun b stb hb => ?_⟩
+        by_cases hba : a = b
+        · subst hba
+          simp only [List.getElem?_set_self halt, Option.some.injEq] at hb
+          subst hb
+          refine ⟨fun p => by simp, fun p o hp => by simp at hp, fun p hp => ?_⟩
+          simp only [PC.done.injEq, true_and] at hp
+          subst hp
+          exact List.mem_cons_self
+        · simp only [List.getElem?_set_ne hba] at hb
+          obtain ⟨g1, g2, g3⟩ := hact b stb hb
+          exact ⟨g1, g2, fun p hp => List.mem_cons_of_mem _ (g3 p hp)⟩
+      · simp only [hreg, if_false, Option.some.injEq, Prod.mk.injEq] at hs
+        obtain ⟨rfl, _⟩ := hs
+        refine ⟨hchain, fun b stb hb => ?_⟩
+        by_cases hba : a = b
+        · subst hba
+          simp only [List.getElem?_set_self halt, Option.some.injEq] at hb
+          subst hb
+          exact ⟨fun p => by simp, fun p o hp => by simp at hp, fun p hp => by simp at hp⟩
+        · simp only [List.getElem?_set_ne hba] at hb
+          exact hact b stb hb
+
+
 end Dulwich.RefsFS
